@@ -1640,6 +1640,393 @@ example : PadsOk [(" ".toList, "2023-05-22".toList), ("   ".toList, "4331296.815
   · decide +kernel
   · exact tmsCol_float _ _ [4331296.8156, 12] (by decide +kernel) (by decide +kernel)
 
+/-! ## 10. Matrix blocks and per-site blocks at file level -/
+
+/-- the run a matrix line writes -/
+def runOf (l : MatLine) : Run := (l.row.toNat, l.col.toNat, l.vals.filterMap id)
+
+/-- **matrix block, lower form, as the parser builds it**: with the size `n` known (from the size block or
+guessed), lines inside the matrix give the full symmetric matrix holding the listed values at
+`(row, col + k)` and mirrored, zeros elsewhere -/
+theorem matrixOf_lower (sizeRows : Option Nat) (lines : List MatLine) (hpos : ∀ l ∈ lines, 0 ≤ l.row ∧ 0 ≤ l.col)
+    (hok : ∀ l ∈ lines, (runOf l).ok (matrixSize sizeRows lines)) :
+    ∃ R, matrixOf .lower sizeRows lines = some R ∧
+      ∀ i j, i < matrixSize sizeRows lines → j < matrixSize sizeRows lines → j ≤ i →
+        R.get i j = (lastCover (lines.map runOf) i j).getD 0 ∧ R.get j i = (lastCover (lines.map runOf) i j).getD 0 := by
+  unfold matrixOf
+  simp only
+  rw [fillMatrix_eq _ lines hpos]
+  exact matrix_full_lower _ (lines.map runOf) (by
+    intro l hl
+    simp only [List.mem_map] at hl
+    obtain ⟨l', hl', rfl⟩ := hl
+    exact hok l' hl')
+
+theorem matrixOf_upper (sizeRows : Option Nat) (lines : List MatLine) (hpos : ∀ l ∈ lines, 0 ≤ l.row ∧ 0 ≤ l.col)
+    (hok : ∀ l ∈ lines, (runOf l).ok (matrixSize sizeRows lines)) :
+    ∃ R, matrixOf .upper sizeRows lines = some R ∧
+      ∀ i j, i < matrixSize sizeRows lines → j < matrixSize sizeRows lines → i ≤ j →
+        R.get i j = (lastCover (lines.map runOf) i j).getD 0 ∧ R.get j i = (lastCover (lines.map runOf) i j).getD 0 := by
+  unfold matrixOf
+  simp only
+  rw [fillMatrix_eq _ lines hpos]
+  exact matrix_full_upper _ (lines.map runOf) (by
+    intro l hl
+    simp only [List.mem_map] at hl
+    obtain ⟨l', hl', rfl⟩ := hl
+    exact hok l' hl')
+
+/-- the field table all three matrix blocks share -/
+def matrixFields : List FieldDef :=
+  [⟨"row_idx", 1, .i8, .none⟩, ⟨"column_idx", 7, .i8, .none⟩, ⟨"value_0", 13, .f8, .none⟩, ⟨"value_1", 35, .f8, .none⟩,
+   ⟨"value_2", 57, .f8, .none⟩]
+
+theorem matrix_tables : (baseBlocks.all fun b => match b.kind with
+    | .matrix _ => decide (b.fields = matrixFields)
+    | _ => true) = true := by decide +kernel
+
+/-- a written matrix record is read as the line (row, column, up to three values) of its texts: integers by
+`int`, reals by `float`, an empty value field as "no value" -/
+theorem matLineOf_record (a0 a1 a2 a3 a4 : Align) (r c v0 v1 v2 : Str) :
+    matLineOf (convertRow matrixFields [(a0, r), (a1, c), (a2, v0), (a3, v1), (a4, v2)]) =
+      ⟨(parseInt? r).getD (-1), (parseInt? c).getD (-1), [parseFloat v0, parseFloat v1, parseFloat v2]⟩ := by
+  have h0 : validName "row_idx" = "row_idx" := by decide +kernel
+  have h1 : validName "column_idx" = "column_idx" := by decide +kernel
+  have h2 : validName "value_0" = "value_0" := by decide +kernel
+  have h3 : validName "value_1" = "value_1" := by decide +kernel
+  have h4 : validName "value_2" = "value_2" := by decide +kernel
+  simp [matLineOf, convertRow, matrixFields, lookup, convertCell, toInt, cellInt, cellFlt, h0, h1, h2, h3, h4]
+
+/-- the parser only returns when every declared block that is in the file could be parsed -/
+theorem foldlM_baseStep_some (blocks0 : List BlockDef) (look : String → Option RawBlock) :
+    ∀ (bs : List BlockDef) (acc D : List (String × Val)), bs.foldlM (baseStep blocks0 look) acc = some D →
+      ∀ b ∈ bs, ∀ r, look b.marker = some r → ∃ v, blockVal blocks0 look b r = some v := by
+  intro bs
+  induction bs with
+  | nil => intro _ _ _ b hb; simp at hb
+  | cons a rest ih =>
+    intro acc D h b hb r hr
+    simp only [List.foldlM_cons, Option.bind_eq_bind] at h
+    cases hstep : baseStep blocks0 look acc a with
+    | none => simp [hstep] at h
+    | some acc' =>
+      rw [hstep, Option.bind_some] at h
+      rcases List.mem_cons.mp hb with rfl | hin
+      · unfold baseStep at hstep
+        simp only [hr] at hstep
+        cases hv : blockVal blocks0 look b r with
+        | none => simp [hv] at hstep
+        | some v => exact ⟨v, rfl⟩
+      · exact ih acc' D h b hin r hr
+
+/-- **file_roundtrip (matrix blocks)**: for a declared matrix block — the first of its marker in the file, titled
+`+MARKER L|U [type]`, made of records and comment lines — `data[MARKER]` is `{"matrix": M, "type": type}` where
+`M` is what `matrixOf` (to which `matrix_symm`, `matrixOf_lower/upper` apply) makes of the written records,
+with the size taken from the size block as `parse_blocks` delivered it -/
+theorem base_file_matrix (header : List FieldDef) (blocks : List BlockDef) (b : BlockDef) (sz : String)
+    (hb : b ∈ blocks) (hkind : b.kind = .matrix sz) (hnd : (blocks.map (·.marker)).Nodup)
+    (hs : Sorted (layoutOf b.fields 81) = true) (hl : leadOk (layoutOf b.fields 81) = true)
+    (hd : Str) (pre post : List Seg) (h mk : Str) (lu : Str) (typ : List Str) (htyp : typ.length ≤ 1) (f : Str)
+    (items : List Item)
+    (hmk : asString mk = b.marker) (hfirst : b.marker ∉ (blocksOf pre).map (·.marker))
+    (hitems : ∀ i ∈ items, i.wf b.fields 81)
+    (hwf : SnxFile.wf ⟨hd, pre ++ Seg.block h mk (lu :: typ) (content b.fields 81 items) f :: post⟩)
+    (R : Result)
+    (hR : parseBaseFile header blocks
+      (SnxFile.text ⟨hd, pre ++ Seg.block h mk (lu :: typ) (content b.fields 81 items) f :: post⟩) = some R) :
+    ∃ D M, R.data = .dict D ∧
+      dget? D b.marker = some (.dict [("matrix", .mat M), ("type", .cell (.str (typ.headD [])))]) ∧
+      ∃ size, matrixOf (triOf lu) size (((records items).map (convertRow b.fields)).map matLineOf) = some M := by
+  unfold parseBaseFile parseWith at hR
+  rw [readRaw_file _ _ _ _ _ hwf] at hR
+  simp only [Option.bind_some] at hR
+  cases hD : assembleBase blocks (rawOf (expected (blocks.map (·.marker))
+      (pre ++ Seg.block h mk (lu :: typ) (content b.fields 81 items) f :: post))) with
+  | none => simp [hD] at hR
+  | some D =>
+    simp only [hD, Option.map_some, Option.some.injEq] at hR
+    subst hR
+    have hget := (assembleBase_get blocks _ D hnd hD).1 b hb
+    obtain ⟨r, hr, hps, hrows⟩ := file_block_rows b (blocks.map (·.marker)) (List.mem_map_of_mem hb) 81 hs hl
+      pre post h mk (lu :: typ) f items hmk hfirst hitems
+    rw [hr] at hget
+    simp only [Option.bind_some, blockVal, hkind] at hget
+    -- the matrix parser: one or two title parameters
+    have hmv : ∃ size, matrixVal b sz blocks (rawOf (expected (blocks.map (·.marker))
+        (pre ++ Seg.block h mk (lu :: typ) (content b.fields 81 items) f :: post))) r =
+        (matrixOf (triOf lu) size (((records items).map (convertRow b.fields)).map matLineOf)).map fun M =>
+          .dict [("matrix", .mat M), ("type", .cell (.str (typ.headD [])))] := by
+      unfold matrixVal
+      rw [hps]
+      cases typ with
+      | nil => exact ⟨_, by simp only [rowsOf, hrows]; rfl⟩
+      | cons t rest =>
+        cases rest with
+        | nil => exact ⟨_, by simp only [rowsOf, hrows]; rfl⟩
+        | cons _ _ => simp at htyp
+    obtain ⟨size, hmv⟩ := hmv
+    rw [hmv] at hget
+    cases hM : matrixOf (triOf lu) size (((records items).map (convertRow b.fields)).map matLineOf) with
+    | none =>
+      -- then the whole parser would have raised
+      exfalso
+      obtain ⟨v, hv⟩ := foldlM_baseStep_some blocks _ blocks [] D hD b hb r hr
+      simp only [blockVal, hkind] at hv
+      rw [hmv, hM] at hv
+      simp at hv
+    | some M =>
+      rw [hM] at hget
+      exact ⟨D, M, rfl, hget, size, hM⟩
+
+
+/-- **file_roundtrip (discontinuities / events)**: the parser declaring the single per-site block `b` reads a
+file holding that block (first of its marker, anywhere in the body): the result is the site table built
+from exactly the written records — every record (without its `site_code`) under the site its `site_code`
+names, and over all sites the stored rows are a permutation of the written ones: none lost, none duplicated -/
+theorem disc_file_roundtrip (header : List FieldDef) (b : BlockDef) (q : String) (hkind : b.kind = .custom q)
+    (hs : Sorted (layoutOf b.fields 81) = true) (hl : leadOk (layoutOf b.fields 81) = true)
+    (hd : Str) (pre post : List Seg) (h mk : Str) (ps : List Str) (f : Str) (items : List Item)
+    (hmk : asString mk = b.marker) (hfirst : b.marker ∉ (blocksOf pre).map (·.marker))
+    (hitems : ∀ i ∈ items, i.wf b.fields 81)
+    (hwf : SnxFile.wf ⟨hd, pre ++ Seg.block h mk ps (content b.fields 81 items) f :: post⟩) :
+    ∃ T : SiteTable,
+      parseDiscFile header [b] (SnxFile.text ⟨hd, pre ++ Seg.block h mk ps (content b.fields 81 items) f :: post⟩) =
+        some ⟨headerRow snxTag header (fun _ => 81) hd, siteTableVal T⟩ ∧
+      T = regroup false (entryName q) siteKey dropSiteCode [] ((records items).map (convertRow b.fields)) ∧
+      (allRows (entryName q) T).Perm (((records items).map (convertRow b.fields)).map dropSiteCode) := by
+  refine ⟨_, ?_, rfl, ?_⟩
+  · unfold parseDiscFile parseWith
+    rw [readRaw_file _ _ _ _ _ hwf]
+    obtain ⟨r, hr, _, hrows⟩ := file_block_rows b ([b].map (·.marker)) (by simp) 81 hs hl
+      pre post h mk ps f items hmk hfirst hitems
+    simp only [Option.bind_some, assembleDisc, List.foldlM_cons, List.foldlM_nil, discStep, hr, hkind, rowsOf, hrows,
+      Option.pure_def, Option.bind_eq_bind, Option.map_some]
+  · have := site_regroup (entryName q) siteKey dropSiteCode ((records items).map (convertRow b.fields)) []
+    simpa [allRows] using this
+
+/-! ## 11. Epochs of SINEX-TMS (`YYYY:DDD:SSSSS`) -/
+
+/-- YYYY:DDD:SSSSS as printed by a conforming writer -/
+def epoch4Text (y ddd s : Nat) : Str :=
+  fixedDigits 4 y ++ ':' :: fixedDigits 3 ddd ++ ':' :: fixedDigits 5 s
+
+/-- **four-digit-year epoch**: a well-formed `YYYY:DDD:SSSSS` (year 1…9999) is day `DDD` of that year plus
+`SSSSS` seconds (seconds beyond a day roll over into the next days, as `timedelta` does) -/
+theorem epoch4_value (y ddd s : Nat) (hy1 : 1 ≤ y) (hy : y < 10000) (hd1 : 1 ≤ ddd) (hd2 : ddd ≤ 366) (hs : s < 100000) :
+    convertYyyy? (epoch4Text y ddd s) = some (addSeconds (jan1 y + ddd - 1) s) := by
+  have hshape : epoch4Text y ddd s =
+      [digitChar (y / 10 / 10 / 10), digitChar (y / 10 / 10), digitChar (y / 10), digitChar y, ':',
+       digitChar (ddd / 10 / 10), digitChar (ddd / 10), digitChar ddd, ':',
+       digitChar (s / 10 / 10 / 10 / 10), digitChar (s / 10 / 10 / 10), digitChar (s / 10 / 10),
+       digitChar (s / 10), digitChar s] := rfl
+  have htake8 : (epoch4Text y ddd s).take 8 = fixedDigits 4 y ++ ':' :: fixedDigits 3 ddd := by rw [hshape]; rfl
+  have hdrop9 : (epoch4Text y ddd s).drop 9 = fixedDigits 5 s := by rw [hshape]; rfl
+  have hne : epoch4Text y ddd s ≠ "0000:000:00000".toList := by
+    intro he
+    -- the year digits would all be zero
+    have h4 : (epoch4Text y ddd s).take 4 = fixedDigits 4 y := by rw [hshape]; rfl
+    rw [he] at h4
+    have hv := digitsVal_fixedDigits 4 y
+    rw [← h4] at hv
+    have h0 : digitsVal (("0000:000:00000".toList).take 4) = 0 := by decide
+    rw [h0] at hv
+    omega
+  have hss : parseInt? (fixedDigits 5 s) = some ((s : Nat) : Int) := by
+    rw [parseInt_fixedDigits (by decide)]; congr 2; omega
+  have hstr : strptimeYj? (fixedDigits 4 y ++ ':' :: fixedDigits 3 ddd) = some (jan1 y + ddd - 1) := by
+    unfold strptimeYj?
+    have h4 : (fixedDigits 4 y ++ ':' :: fixedDigits 3 ddd).take 4 = fixedDigits 4 y := by
+      rw [List.take_append_of_le_length (by rw [length_fixedDigits]; exact Nat.le_refl _), List.take_of_length_le (by rw [length_fixedDigits]; exact Nat.le_refl _)]
+    have hd4 : (fixedDigits 4 y ++ ':' :: fixedDigits 3 ddd).drop 4 = ':' :: fixedDigits 3 ddd := by
+      rw [List.drop_append_of_le_length (by rw [length_fixedDigits]; exact Nat.le_refl _), List.drop_of_length_le (by rw [length_fixedDigits]; exact Nat.le_refl _)]
+      rfl
+    have hval : digitsVal (fixedDigits 4 y) = y := by rw [digitsVal_fixedDigits]; omega
+    rw [h4, hd4]
+    simp only [length_fixedDigits, allDigits_fixedDigits, parseDoy_fixed ddd hd1 hd2, hval]
+    have h1 : ¬ ((y : Int) < 1) := by omega
+    simp [h1]
+  unfold convertYyyy?
+  simp only [hne, if_false, htake8, hstr, hdrop9, hss]
+
+/-- **open end**: `0000:000:00000` ("now") is read as the code's far-future stand-in 9999:364:99999,
+i.e. 9999-12-31T03:46:39 -/
+theorem epoch4_open : convertCell ⟨"t", 0, .obj, .yyyydddsssss⟩ "0000:000:00000".toList =
+    .dt (jan1 9999 + 364) 13599 := by
+  decide +kernel
+
+example : convertYyyy? "2023:142:42765".toList = some (.dt (jan1 2023 + 141) 42765) := by decide +kernel
+
+/-! ## 12. sinex_site: every block's rows are kept, whatever else is in the file -/
+
+/-- storing a row under another entry does not touch the rows of entry `e` -/
+theorem allRows_addRow_other (single : Bool) (e e' : String) (hne : e' ≠ e) (T : SiteTable) (key : String) (r : Row) :
+    allRows e (addRow single e' T key r) = allRows e T := by
+  unfold addRow
+  induction T with
+  | nil =>
+    simp only [dget?, Option.getD_none, dset, allRows, List.flatMap_cons, List.flatMap_nil, List.append_nil]
+    simp [dget?, hne]
+  | cons p rest ih =>
+    obtain ⟨k', s'⟩ := p
+    by_cases h : k' = key
+    · subst h
+      simp only [dget?, if_true, Option.getD_some, dset, allRows, List.flatMap_cons]
+      rw [dget_dset_ne _ _ _ _ hne]
+    · simp only [dget?, h, if_false, dset, allRows, List.flatMap_cons]
+      simp only [allRows] at ih
+      rw [ih]
+
+theorem allRows_regroup_other (single : Bool) (e e' : String) (hne : e' ≠ e) (keyOf : Row → String) (f : Row → Row)
+    (rows : List Row) : ∀ T : SiteTable, allRows e (regroup single e' keyOf f T rows) = allRows e T := by
+  induction rows with
+  | nil => intro T; rfl
+  | cons r rows ih =>
+    intro T
+    simp only [regroup, List.foldl_cons] at ih ⊢
+    rw [ih, allRows_addRow_other single e e' hne]
+
+/-- the rows the block `b` contributes to entry `e` of the site table -/
+def contrib (e : String) (look : String → Option RawBlock) (b : BlockDef) : List Row :=
+  match look b.marker, b.kind with
+  | some r, .custom q =>
+    if entryName q = e then
+      (if e = "site_antenna" then ((rowsOf b 81 r).mapM antennaRow).getD [] else rowsOf b 81 r)
+    else []
+  | _, _ => []
+
+/-- **sinex_site keeps every row of every block**: after all declared blocks are applied, the rows found
+under entry `e` (any entry but `site_id`, which holds one record per site) over all sites are a
+permutation of the rows that were there plus the rows of the blocks of that entry (antenna rows with the
+radome type split off) — whatever other blocks are declared or present -/
+theorem site_fold_rows (look : String → Option RawBlock) (e : String) (he1 : e ≠ "site_id") (he2 : e ≠ "file_comment") :
+    ∀ (bs : List BlockDef) (st st' : SiteTable × Option Str), bs.foldlM (siteStep look) st = some st' →
+      (allRows e st'.1).Perm (allRows e st.1 ++ bs.flatMap (contrib e look)) := by
+  intro bs
+  induction bs with
+  | nil =>
+    intro st st' h
+    simp only [List.foldlM_nil, Option.pure_def, Option.some.injEq] at h
+    subst h; simp
+  | cons b rest ih =>
+    intro st st' h
+    simp only [List.foldlM_cons, Option.bind_eq_bind] at h
+    cases hstep : siteStep look st b with
+    | none => simp [hstep] at h
+    | some st1 =>
+      rw [hstep, Option.bind_some] at h
+      have hrest := ih st1 st' h
+      suffices hs : (allRows e st1.1).Perm (allRows e st.1 ++ contrib e look b) by
+        simp only [List.flatMap_cons]
+        refine hrest.trans ?_
+        rw [← List.append_assoc]
+        exact List.Perm.append_right _ hs
+      unfold siteStep at hstep
+      unfold contrib
+      cases hlook : look b.marker with
+      | none =>
+        simp only [hlook, Option.some.injEq] at hstep
+        subst hstep; simp
+      | some r =>
+        cases hk : b.kind with
+        | dflt => simp [hlook, hk] at hstep
+        | matrix _ => simp [hlook, hk] at hstep
+        | custom q =>
+          simp only [hlook, hk] at hstep ⊢
+          by_cases hq : entryName q = e
+          · -- the block of entry `e`
+            have h1 : ¬ entryName q = "file_comment" := by rw [hq]; exact he2
+            have h2 : ¬ entryName q = "site_id" := by rw [hq]; exact he1
+            simp only [h1, h2, if_false] at hstep
+            by_cases ha : entryName q = "site_antenna"
+            · have hea : e = "site_antenna" := by rw [← hq]; exact ha
+              simp only [ha, if_true] at hstep
+              cases hm : (rowsOf b 81 r).mapM antennaRow with
+              | none => simp [hm] at hstep
+              | some rows' =>
+                simp only [hm, Option.map_some, Option.some.injEq] at hstep
+                subst hstep
+                simp only [hq, if_true, hea, Option.getD_some]
+                have := site_regroup "site_antenna" siteKey id rows' st.1
+                simpa using this
+            · have hea : ¬ e = "site_antenna" := by rw [← hq]; exact ha
+              simp only [ha, if_false, Option.some.injEq] at hstep
+              subst hstep
+              simp only [hq, if_true, hea, if_false]
+              have := site_regroup e siteKey id (rowsOf b 81 r) st.1
+              simpa using this
+          · -- a block of another entry
+            simp only [hq, if_false, List.append_nil]
+            by_cases h1 : entryName q = "file_comment"
+            · simp only [h1, if_true] at hstep
+              cases hf : refFrame (rowsOf b 81 r) with
+              | none => simp [hf] at hstep
+              | some fr =>
+                simp only [hf, Option.map_some, Option.some.injEq] at hstep
+                subst hstep; simp
+            · simp only [h1, if_false] at hstep
+              by_cases h2 : entryName q = "site_id"
+              · simp only [h2, if_true, Option.some.injEq] at hstep
+                subst hstep
+                rw [allRows_regroup_other true e "site_id" (Ne.symm he1)]
+              · simp only [h2, if_false] at hstep
+                by_cases ha : entryName q = "site_antenna"
+                · simp only [ha, if_true] at hstep
+                  cases hm : (rowsOf b 81 r).mapM antennaRow with
+                  | none => simp [hm] at hstep
+                  | some rows' =>
+                    simp only [hm, Option.map_some, Option.some.injEq] at hstep
+                    subst hstep
+                    rw [allRows_regroup_other false e "site_antenna" (by rw [← ha]; exact hq)]
+                · simp only [ha, if_false, Option.some.injEq] at hstep
+                  subst hstep
+                  rw [allRows_regroup_other false e (entryName q) hq]
+
+/-- the reference-frame step leaves every row where it is, adding `ref_frame` to solution_estimate rows only -/
+theorem allRows_addRefFrame (e : String) (he : e ≠ "solution_estimate") (frame : Option Str) (T : SiteTable) :
+    allRows e (addRefFrame frame T) = allRows e T := by
+  cases frame with
+  | none => rfl
+  | some fr =>
+    simp only [addRefFrame, allRows]
+    induction T with
+    | nil => rfl
+    | cons p rest ih =>
+      obtain ⟨site, entries⟩ := p
+      simp only [List.map_cons, List.flatMap_cons, ih]
+      congr 1
+      by_cases h4 : site.length = 4
+      · simp only [h4, if_true]
+        congr 1
+        induction entries with
+        | nil => rfl
+        | cons q es ihe =>
+          obtain ⟨e', rows⟩ := q
+          by_cases h : e' = "solution_estimate"
+          · subst h
+            have : ¬ "solution_estimate" = e := fun x => he x.symm
+            simp only [List.map_cons, if_true, dget?, this, if_false]
+            exact ihe
+          · by_cases h2 : e' = e
+            · subst h2
+              simp [dget?, he]
+            · simp only [List.map_cons, h, if_false, dget?, h2]
+              exact ihe
+      · simp [h4]
+
+
+/-- **site_rows_kept**: in the table `sinex_site` returns (`assembleSite` = `siteTableVal` of it), the rows
+under an entry other than `site_id` — receiver, antenna, eccentricity, solution epochs … — over all sites are
+a permutation of the rows of the blocks of that entry: none lost, none duplicated, whatever the order
+of the blocks in the file and whatever other blocks it holds (solution_estimate: the same before the
+reference frame is added to its rows, `site_fold_rows`) -/
+theorem site_rows_kept (blocks : List BlockDef) (look : String → Option RawBlock) (e : String)
+    (he1 : e ≠ "site_id") (he2 : e ≠ "file_comment") (he3 : e ≠ "solution_estimate") (st : SiteTable × Option Str)
+    (h : blocks.foldlM (siteStep look) ([], Option.none) = some st) :
+    (allRows e (addRefFrame st.2 st.1)).Perm (blocks.flatMap (contrib e look)) := by
+  rw [allRows_addRefFrame e he3]
+  have := site_fold_rows look e he1 he2 blocks ([], Option.none) st h
+  simpa [allRows] using this
+
 end Midgard.Props.C14
 
 #print axioms Midgard.Props.C14.starts_sorted
@@ -1730,3 +2117,17 @@ end Midgard.Props.C14
 #print axioms Midgard.Props.C14.le_maxChar
 #print axioms Midgard.Props.C14.length_rstrip_le
 #print axioms Midgard.Props.C14.tms_block_roundtrip
+#print axioms Midgard.Props.C14.matrixOf_lower
+#print axioms Midgard.Props.C14.matrixOf_upper
+#print axioms Midgard.Props.C14.matrix_tables
+#print axioms Midgard.Props.C14.matLineOf_record
+#print axioms Midgard.Props.C14.foldlM_baseStep_some
+#print axioms Midgard.Props.C14.base_file_matrix
+#print axioms Midgard.Props.C14.disc_file_roundtrip
+#print axioms Midgard.Props.C14.epoch4_value
+#print axioms Midgard.Props.C14.epoch4_open
+#print axioms Midgard.Props.C14.allRows_addRow_other
+#print axioms Midgard.Props.C14.allRows_regroup_other
+#print axioms Midgard.Props.C14.site_fold_rows
+#print axioms Midgard.Props.C14.allRows_addRefFrame
+#print axioms Midgard.Props.C14.site_rows_kept
